@@ -207,7 +207,7 @@ def finish(pid, tier, seed, mod, cases, lost, t0, ncases, write_evidence=True, o
                     violations.append((c, r))
 
     # replay files for unlisted violations (first few per mechanism)
-    rdir = os.path.join(ROOT, "replays", pid)
+    rdir = os.path.join(ROOT, "replays" if write_evidence else ".work/replays-scratch", pid)
     os.makedirs(rdir, exist_ok=True)
     for f in os.listdir(rdir):
         os.remove(os.path.join(rdir, f))
